@@ -645,6 +645,68 @@ type argItem struct {
 type argsCase struct {
 	Lead  []string  `json:"lead"`
 	Items []argItem `json:"items"`
+	// Mode: "" = the binding flags alone (Lead holds -n).  Otherwise the name
+	// of an input-mode cluster whose flag tokens are "flag" items among Items;
+	// the main input Stdin is valid in that mode and the program also reports
+	// `.` for every main input.
+	Mode     string   `json:"mode,omitempty"`
+	Stdin    string   `json:"stdin,omitempty"`
+	MainWant []string `json:"mainwant,omitempty"` // yaml mode: the main input values as JSON texts
+}
+
+// argModes: the input-mode clusters and the spellings of their flags.
+var argModes = map[string][][]string{
+	"json":        {{}},
+	"stream":      {{"--stream"}},
+	"raw":         {{"-R"}, {"--raw-input"}},
+	"rawslurp":    {{"-Rs"}, {"-sR"}, {"-R", "-s"}, {"--slurp", "--raw-input"}},
+	"slurp":       {{"-s"}, {"--slurp"}},
+	"null":        {{"-n"}, {"--null-input"}},
+	"yaml":        {{"--yaml-input"}},
+	"streamslurp": {{"--stream", "-s"}, {"-s", "--stream"}, {"--slurp", "--stream"}},
+	"nullraw":     {{"-nR"}, {"-Rn"}, {"-n", "--raw-input"}},
+}
+var argModeNames = []string{"json", "stream", "raw", "rawslurp", "slurp", "null", "yaml", "streamslurp", "nullraw"}
+
+// mainValues: what the mode alone makes of the main input.
+func mainValues(c argsCase) ([]any, bool) {
+	switch c.Mode {
+	case "null", "nullraw":
+		return []any{nil}, true
+	case "raw":
+		out := []any{}
+		for _, l := range rawLines(c.Stdin) {
+			out = append(out, l)
+		}
+		return out, true
+	case "rawslurp":
+		return []any{c.Stdin}, true
+	case "yaml":
+		out := []any{}
+		for _, w := range c.MainWant {
+			vs, err := decodeOut(w)
+			if err != nil || len(vs) != 1 {
+				return nil, false
+			}
+			out = append(out, vs[0])
+		}
+		return out, true
+	}
+	docs, bad := readStream(c.Stdin)
+	if bad {
+		return nil, false
+	}
+	switch c.Mode {
+	case "json":
+		return vals(docs), true
+	case "stream":
+		return allEvents(docs), true
+	case "slurp":
+		return []any{vals(docs)}, true
+	case "streamslurp":
+		return []any{allEvents(docs)}, true
+	}
+	return nil, false
 }
 
 func checkArgs(c argsCase) string { return finish(checkArgs1(c)) }
@@ -708,6 +770,11 @@ func checkArgs1(c argsCase) string {
 		case "ddash":
 			dd = true
 			args = append(args, "--")
+		case "flag":
+			if dd || len(it.Text) < 2 || it.Text[0] != '-' {
+				return "bad case: flag item"
+			}
+			args = append(args, it.Text)
 		case "query":
 			if haveQuery {
 				return "bad case: two queries"
@@ -753,6 +820,31 @@ func checkArgs1(c argsCase) string {
 		return skipMsg
 	}
 	defer os.RemoveAll(dir)
+	if c.Mode != "" {
+		mains, ok := mainValues(c)
+		if !ok {
+			return "bad case: main input"
+		}
+		args[qAt] = "[., $ARGS, [" + strings.Join(vars, ", ") + "], $ARGS.named, $ARGS.positional]"
+		r, v := gojq(dir, c.Stdin, args...)
+		if v != "" {
+			return v
+		}
+		got, err := decodeOut(r.Stdout)
+		if err != nil || r.Exit != 0 || r.Stderr != "" {
+			return fmt.Sprintf("argument flags with input mode %s: %s", c.Mode, r)
+		}
+		if len(got) != len(mains) {
+			return fmt.Sprintf("gojq %q on %q: %d results for the %d main inputs %s of mode %s: %s", args, c.Stdin, len(got), len(mains), showList(mains), c.Mode, r)
+		}
+		for i, g := range got {
+			w := append([]any{mains[i]}, want...)
+			if !same(g, w) {
+				return fmt.Sprintf("gojq %q on %q (mode %s): [., $ARGS, [vars], $ARGS.named, $ARGS.positional] = %s, want %s", args, c.Stdin, c.Mode, show(g), show(w))
+			}
+		}
+		return ""
+	}
 	r, v := gojq(dir, "\"UNREAD-STDIN\"", args...)
 	if v != "" {
 		return v
@@ -967,7 +1059,7 @@ func replayCase(sub string, raw json.RawMessage) string {
 			return m
 		}
 		return checkRaw(c)
-	case "args":
+	case "args", "args-mode":
 		var c argsCase
 		if m := un(&c); m != "" {
 			return m
@@ -1358,6 +1450,25 @@ func TestC16(t *testing.T) {
 		rec.Sample(c)
 		if msg := checkArgs(c); msg != "" {
 			t.Fatalf("%s", rec.Fail("args", c, "%s", msg))
+		}
+	})
+
+	rec.Rapid(t, "args-mode", rec.Scale(2000, 30000), func(t *rapid.T) {
+		c := genArgsModeCase(t)
+		rec.Eval()
+		rec.Class("args-mode/" + c.Mode)
+		for _, it := range c.Items {
+			switch it.Kind {
+			case "arg", "argjson", "slurpfile", "rawfile", "args", "jsonargs":
+				rec.Class("args-mode/" + c.Mode + "+" + it.Kind)
+			}
+		}
+		if c.Mode != "json" {
+			rec.NT("args-mode/" + key(c))
+		}
+		rec.Sample(c)
+		if msg := checkArgs(c); msg != "" {
+			t.Fatalf("%s", rec.Fail("args-mode", c, "%s", msg))
 		}
 	})
 
